@@ -1088,7 +1088,7 @@ def walkDef (env : AEnv) (mode : WalkMode) : Def → V Unit
   | .func f => if mode == .enum then pure () else walkFunc env f
   | .decorator f => if mode == .enum then pure () else walkFunc env f
   | .overloaded impl =>
-    if mode == .cls then (match impl with | some f => walkFunc env f | none => walkNone) else pure ()
+    if mode == .enum then pure () else (match impl with | some f => walkFunc env f | none => walkNone)
   | .cls name fullname bases removed defs =>
     if mode == .enum then pure ()
     else if isEnumClass bases then do
